@@ -603,7 +603,7 @@ func isDeferredClosure(parent, g *ssa.Function) bool {
 }
 
 func c08R4(h H) {
-	h.r.Rule("R4", "failed attempts are undone (E10 lifecycle traces): for every step of startWithListenerFds that can fail (directive execution, MakeServers, each first-startup and startup callback, the server start) the instance is gone from the instance list when the error is returned, and present after a successful start; for every failure of Instance.Restart up to the start of the new instance the restart-failed callbacks run and the old instance is returned with the error", 2)
+	h.r.Rule("R4", "failed attempts are undone (E10 lifecycle traces): for every step of startWithListenerFds that can fail (directive execution, MakeServers, each first-startup and startup callback, the server start) the instance is gone from the instance list when the error is returned — and when the step panics instead — and present after a successful start; for every failure of Instance.Restart up to the start of the new instance the restart-failed callbacks run and the old instance is returned with the error", 2)
 	t := lifecycleTraces(h)
 	var pos token.Pos
 	if f := h.p.Func("", "startWithListenerFds"); f != nil {
@@ -908,7 +908,7 @@ func runC16(r *Report, p *Program) {
 		r.Check(t.shut == "" && t.other+t.oShut == "", "R6", "casket.(*Instance).ShutdownCallbacks/trace", pos, "every shutdown and final-shutdown callback runs once, in order, errors are collected", n, t.shut, t.other+t.oShut)
 	}
 
-	r.Rule("R5", "no callbacks of an instance that never went live (E10 lifecycle traces): whichever step of startWithListenerFds fails — directive execution, MakeServers, a first-startup or startup callback, the server start — the instance is gone from the instance list when the error is returned, so process shutdown never runs OnShutdown/OnFinalShutdown of an instance that never went live", 1)
+	r.Rule("R5", "no callbacks of an instance that never went live (E10 lifecycle traces): whichever step of startWithListenerFds fails or panics — directive execution, MakeServers, a first-startup or startup callback, the server start — the instance is gone from the instance list when the function is left, so process shutdown never runs OnShutdown/OnFinalShutdown of an instance that never went live", 1)
 	{
 		t := lifecycleTraces(h)
 		var pos token.Pos
@@ -976,6 +976,7 @@ func mergeEdges(a, b map[edge]bool) map[edge]bool {
 
 func runC07(r *Report, p *Program) {
 	h := H{r, p}
+	defer c07R6(h)
 	r.Rule("R1", "start-new-before-stop-old (E10 lifecycle traces): in every evaluated Restart — each restart callback, the start of the new instance, the stop of the old servers and each old shutdown callback failing in turn — the old servers are stopped only after the new instance started successfully, never when starting it failed, and every Restart that reports success has stopped them", 2)
 	rs := h.fn("R1", "", "(*Instance).Restart")
 	if rs != nil {
@@ -1027,7 +1028,7 @@ func runC07(r *Report, p *Program) {
 		r.Check(alwaysReturnsNilError(is), "R3", "casket.(*Instance).Stop/always-nil", is.Pos(), "Instance.Stop reports no error to Restart (Restart treats an error here as a failed reload although the new instance is already serving)")
 	}
 
-	r.Rule("R4", "wait-group pairing: wg.Add(1) in Restart and Stop is matched by a deferred Done; in startServers each Add(n) is matched by n goroutines that each defer Done on the same wait groups", 3)
+	r.Rule("R4", "wait-group pairing: wg.Add(1) in Restart, Stop and Instance.Stop (which has to hold the group while it stops servers) is matched by a deferred Done; in startServers each Add(n) is matched by n goroutines that each defer Done on the same wait groups", 3)
 	wgSpec := pairSpec{
 		acquire: func(in ssa.Instruction) (string, bool) {
 			c, ok := in.(*ssa.Call)
@@ -1043,12 +1044,24 @@ func runC07(r *Report, p *Program) {
 			return calleeName(c) == "(*sync.WaitGroup).Done" && describe(c.Args[0]) == key
 		},
 	}
-	for _, name := range []string{"(*Instance).Restart", "Stop"} {
+	for _, name := range []string{"(*Instance).Restart", "Stop", "(*Instance).Stop"} {
 		fn := h.fn("R4", "", name)
 		if fn == nil {
 			continue
 		}
 		res := wgSpec.run(fn)
+		if len(res) == 0 && name == "(*Instance).Stop" {
+			// a graceful stop makes Serve return at once and then drains: without the wait group held across it,
+			// Wait returns (and the process may exit) while requests are still being answered
+			stops := false
+			allInstrs(fn, func(in ssa.Instruction) {
+				if c := callOf(in); c != nil && c.IsInvoke() && c.Method.Name() == "Stop" {
+					stops = true
+				}
+			})
+			r.Check(!stops, "R4", "casket.(*Instance).Stop/holds-wait-group", fn.Pos(), "Instance.Stop holds the instance's wait group while it stops the servers, so that waiting on the instance returns only after every server has stopped")
+			continue
+		}
 		if len(res) == 0 {
 			r.Unresolve("R4", name+": no wg.Add(1)")
 		}
@@ -1102,7 +1115,7 @@ func runC07(r *Report, p *Program) {
 		}
 	}
 
-	r.Rule("R5", "the new instance's startup callbacks (which open log files etc.) are complete before startServers lets it accept connections: in every evaluated trace of startWithListenerFds (E10 lifecycle traces: 32 cases of upgrade/restart/failing step) the servers are started after the last startup callback, and not at all when a callback fails", 1)
+	r.Rule("R5", "the new instance's startup callbacks (which open log files etc.) are complete before startServers lets it accept connections: in every evaluated trace of startWithListenerFds (E10 lifecycle traces: 44 cases of upgrade/restart/failing or panicking step) the servers are started after the last startup callback, and not at all when a callback fails", 1)
 	{
 		t := lifecycleTraces(h)
 		var pos token.Pos
